@@ -38,6 +38,8 @@ CLAIMED = {
          "MIR-driver rules: forbidden-operation scan, sibling consistency, decision-table extraction, template checks, instance validation"),
  "C10": ("other", "PARTIAL (document equivalence for all payloads not decided). Decided on the generated instance in both configurations, joined with the IR: Unknown variants exist exactly when not exhaustive; classification tables (from_str, union classifier) map every IR name to its own variant with only the fall-through arm reaching Unknown / an error, inverse of as_str / serializer; name predicate byte class evaluated over all 256 bytes equals [A-Z0-9_], non-empty, guarding every Variant construction; union Unknown arm and both visit_map orders; trailing-member check; generator emits Unknown pieces only on the !exhaustive branch.", "4/C10",
          "MIR-driver rules: ADT facts joined with IR, string-match decision tables, constant propagation over the byte domain, guard dominance, template conditions"),
+ "C04": ("other", "PARTIAL (end-to-end value equality is not decided). Pairing tables decided on the generated instance joined with the IR: for every argument of all 112 client methods / 112 handlers the client encoder and the server decoder are the pair the IR class prescribes with equal keys / header names / path variables / cookie prefix / element types; response serializer and client decoder paired by return class; Accept and content-type string constants agree; 204 producers match the client's 204 shortcuts per impl; handler invoked once with extracted values in IR order and its result serialized.", "4/C04",
+         "MIR-driver rules: IR-joined instance validation against a pairing table, constant identity, dataflow, dominance"),
 }
 NA = {
  "C11": "Content negotiation quantifies over parsed header lists and numeric q-values; its truth lives in comparator outcomes, not in the shape of the code. The structural clauses in reach are decided under C06/C04; a mirror of this implementation's iterator chain would be a brittle proxy (DESIGN.md section 4/C11).",
@@ -74,7 +76,7 @@ def main():
         "engines": [
             {"name": "mirfacts", "path": "/verif/mirfacts", "serves_properties": sorted(CLAIMED), "kind_free_text": "rustc_private driver (nightly) dumping analysis-phase MIR, impl/ADT tables, evaluated constants as JSON facts, injected via RUSTC_WORKSPACE_WRAPPER under cargo +nightly check"},
             {"name": "rules", "path": "/verif/vf", "serves_properties": sorted(CLAIMED), "kind_free_text": "Python rule library: CFG, dominators, control dependence, copy-chain dataflow, decision tables, typestate; one module per property"},
-            {"name": "tmpl", "path": "/verif/tmpl", "serves_properties": ["C08", "C09", "C10", "C14", "C19"], "kind_free_text": "syn-based quote!-template extractor for conjure-codegen / conjure-macros"},
+            {"name": "tmpl", "path": "/verif/tmpl", "serves_properties": ["C04", "C08", "C09", "C10", "C14", "C19"], "kind_free_text": "syn-based quote!-template extractor for conjure-codegen / conjure-macros"},
         ],
         "checks": checks,
         "not_applicable": na,
